@@ -53,7 +53,9 @@ def ensure_facts(repo=None, verbose=True):
     """Return (facts_dir, info). Re-extracts iff the repo's sources changed since the cached extraction."""
     repo = repo or REPO
     os.makedirs(CACHE, exist_ok=True)
-    lock_path = os.path.join(CACHE, 'extract.lock')
+    # extractions are serialised per cargo target directory (that is what they share); the self-test gives each worker its own
+    tgt_for_lock = os.environ.get('PVX_TARGET', os.path.join(CACHE, 'target'))
+    lock_path = os.path.join(CACHE, 'extract-%s.lock' % hashlib.sha256(os.path.abspath(tgt_for_lock).encode()).hexdigest()[:8])
     with open(lock_path, 'w') as lock:
         fcntl.flock(lock, fcntl.LOCK_EX)
         hsh, nfiles = repo_hash(repo)
